@@ -190,6 +190,91 @@ fn deny(d: &[String]) -> HashSet<Cow<'static, str>> {
     d.iter().map(|s| Cow::Owned(s.clone())).collect()
 }
 
+/// which public route builds a wrapper in this case: a pure function of the wrapper's own data
+fn route_of(d: &[(String, String)]) -> usize {
+    d.len() + d.iter().map(|(k, v)| k.len() + 2 * v.len()).sum::<usize>()
+}
+
+/// `WithDimensions` through every public way of building one - they must all be the same wrapper:
+/// new_with_dimensions; From + add_dimension; new_const + add_dimension; decoy dimensions +
+/// clear_dimensions + add_dimension; built around `()` and moved onto the value with map_value
+fn with_dims<V, const N: usize>(v: V, d: &[(String, String)]) -> WithDimensions<V, N> {
+    match route_of(d) % 5 {
+        0 => WithDimensions::<V, N>::new_with_dimensions(v, dims_cow(d)),
+        1 => {
+            let mut w = WithDimensions::<V, N>::from(v);
+            for (k, i) in dims_cow(d) {
+                w.add_dimension(k, i);
+            }
+            w
+        }
+        2 => {
+            let mut w = WithDimensions::<V, N>::new_const(v);
+            for (k, i) in dims_cow(d) {
+                w.add_dimension(k, i);
+            }
+            w
+        }
+        3 => {
+            let mut w = WithDimensions::<V, N>::new_with_dimensions(v, [("Decoy", "x"), ("Decoy2", "y")]);
+            w.clear_dimensions();
+            for (k, i) in dims_cow(d) {
+                w.add_dimension(k, i);
+            }
+            w
+        }
+        _ => {
+            let cell = std::cell::RefCell::new(Some(v));
+            WithDimensions::<(), N>::new_with_dimensions((), dims_cow(d)).map_value(|()| cell.borrow_mut().take().unwrap())
+        }
+    }
+}
+
+/// the same for `WithGlobalDimensions`
+fn with_global_dims<E, const N: usize>(e: E, d: &[(String, String)], dl: &[String]) -> WithGlobalDimensions<E, N> {
+    match route_of(d) % 4 {
+        0 => WithGlobalDimensions::<E, N>::new_with_global_dimensions(e, dims_cow(d), deny(dl)),
+        1 => {
+            let mut w = WithGlobalDimensions::<E, N>::new_with_global_dimensions(e, [("Decoy", "x")], deny(dl));
+            w.clear_global_dimensions();
+            for (k, i) in dims_cow(d) {
+                w.add_global_dimension(k, i);
+            }
+            w
+        }
+        2 if dl.is_empty() => {
+            let mut w = WithGlobalDimensions::<E, N>::from(e);
+            for (k, i) in dims_cow(d) {
+                w.add_global_dimension(k, i);
+            }
+            w
+        }
+        3 if dl.is_empty() => {
+            // a deny list that is cleared again denies nothing - not even the names it listed
+            let names: Vec<String> = d.iter().map(|(k, _)| k.clone()).collect();
+            let mut w = WithGlobalDimensions::<E, N>::new_with_global_dimensions(e, dims_cow(d), deny(&names));
+            w.clear_global_dimensions_denylist();
+            w
+        }
+        _ => WithGlobalDimensions::<E, N>::new_with_global_dimensions(e, dims_cow(d), deny(dl)),
+    }
+}
+
+/// `ForceFlag` built directly or around `()` and moved onto the value (map_value / map_value_ref)
+fn forced<V, F: metrique_writer_core::value::FlagConstructor>(v: V, route: usize) -> ForceFlag<V, F> {
+    match route % 3 {
+        0 => ForceFlag::<V, F>::from(v),
+        1 => {
+            let cell = std::cell::RefCell::new(Some(v));
+            ForceFlag::<(), F>::from(()).map_value(|()| cell.borrow_mut().take().unwrap())
+        }
+        _ => {
+            let cell = std::cell::RefCell::new(Some(v));
+            ForceFlag::<(), F>::from(()).map_value_ref(|()| cell.borrow_mut().take().unwrap())
+        }
+    }
+}
+
 /// apply one wrapper layer; `BoxEntry` is only the type eraser between layers (boxing itself is
 /// one of the wrappers under test and documented as transparent)
 fn apply(layer: &ELayer, e: BoxEntry) -> BoxEntry {
@@ -245,10 +330,8 @@ fn apply(layer: &ELayer, e: BoxEntry) -> BoxEntry {
             }
             BoxEntry::new(Holder(OwnedPrepared::new(g.clone()), e))
         }
-        ELayer::WithDims(d) => BoxEntry::new(WithDimensions::<_, 2>::new_with_dimensions(e, dims_cow(d))),
-        ELayer::WithGlobalDims(d, dl) => BoxEntry::new(
-            WithGlobalDimensions::<_, 1>::new_with_global_dimensions(e, dims_cow(d), deny(dl)),
-        ),
+        ELayer::WithDims(d) => BoxEntry::new(with_dims::<_, 2>(e, d)),
+        ELayer::WithGlobalDims(d, dl) => BoxEntry::new(with_global_dims::<_, 1>(e, d, dl)),
         ELayer::Force(ForceKind::HighRes) => BoxEntry::new(ForceFlag::<_, HighStorageResolutionCtor>::from(e)),
         ELayer::Force(ForceKind::NoMetric) => BoxEntry::new(ForceFlag::<_, NoMetricCtor>::from(e)),
         ELayer::Force(ForceKind::Test) => BoxEntry::new(ForceFlag::<_, TestFlagCtor>::from(e)),
@@ -769,12 +852,12 @@ impl<N: Depth> Depth for S<N> {
             return w.value(name, v);
         };
         match l {
-            VLayer::Dims(d) => N::go(w, name, &WithDimensions::<_, 1>::new_with_dimensions(v, dims_cow(d)), rest),
+            VLayer::Dims(d) => N::go(w, name, &with_dims::<_, 1>(v, d), rest),
             VLayer::Force(ForceKind::HighRes) => {
                 N::go(w, name, &ForceFlag::<_, HighStorageResolutionCtor>::from(v), rest)
             }
-            VLayer::Force(ForceKind::NoMetric) => N::go(w, name, &ForceFlag::<_, NoMetricCtor>::from(v), rest),
-            VLayer::Force(ForceKind::Test) => N::go(w, name, &ForceFlag::<_, TestFlagCtor>::from(v), rest),
+            VLayer::Force(ForceKind::NoMetric) => N::go(w, name, &forced::<_, NoMetricCtor>(v, name.len() + rest.len()), rest),
+            VLayer::Force(ForceKind::Test) => N::go(w, name, &forced::<_, TestFlagCtor>(v, name.len() + rest.len()), rest),
             VLayer::OptionSome => N::go(w, name, &Some(v), rest),
             VLayer::BoxPtr => N::go(w, name, &Box::new(v), rest),
             VLayer::ArcPtr => N::go(w, name, &Arc::new(v), rest),
